@@ -40,6 +40,12 @@ Box1Reasons(r) ==
   R(Len(r.cp) = Len(r.pts) /\ Len(r.epp) = Len(r.pts) /\ Len(r.epm) = Len(r.pts)
     /\ Len(r.shp) = Len(r.shv) /\ Len(r.shm) = Len(r.shv) /\ Len(r.stp) = Len(r.stv) /\ Len(r.stm) = Len(r.stv), "HARNESS-PRECONDITION")
   \cup R(SameBox(Box(r.pos, r.max), a), "pos-max")
+  (* "size/pos/max ... are consistent with that point set" also through the non-const accessors pos() / max():
+     reading through them gives the same corners; a corner assigned through one of them is the corner the
+     const accessor of the same name then returns, and the other corner is untouched *)
+  \cup R(r.mp = r.pos /\ r.mm = r.max, "pos-max-nonconst-read")
+  \cup R(r.wp = r.max /\ r.wm = r.pos, "pos-max-nonconst-write")
+  \cup R(r.vp = r.pos /\ r.vm = r.max, "pos-max-nonconst-write")
   \cup R(ne => (r.size = Size(BoundingBox(Pts(a))) /\ Cardinality(Pts(a)) = ProdTo(r.size, n)), "size")
   \cup Obs(R(SameBox(Box(r.imp, r.imm), a), "init_max"))
   \cup Obs(R(\A k \in 1..Len(r.idp) : SameBox(Box(r.idp[k], r.idm[k]), a), "init_dim"))
